@@ -177,8 +177,16 @@ def generate(rng, tier):
         dcnu = {"seed": rng.getrandbits(32), "spread": rng.choice([0.0, 0.1, 0.5, 1e-5]),
                 "dtype": rng.choice(["f64", "f64", "f32", "i64"]),
                 "layout": rng.choice(["c", "c", "strided", "transposed"])}
+    if dcnu and rng.random() < 0.3:
+        dcnu["shape"] = rng.choice(["col", "row"])        # a per-row (m, 1) or per-column (1, n) map, legal by broadcasting
+        dcnu["spread"] = rng.choice([0.5, 1.5])
+        if not exact:
+            dark = rng.choice([50.0, 500.0, 5000.0])        # enough dark charge for the map to matter
+            t = t if t > 0 else 1.0
     det = {"bits": bits, "gain": gain, "bias": bias, "fwc": fwc, "dark": dark, "t": t,
-           "read_noise": read_noise, "frames": frames, "prnu": prnu, "dcnu": dcnu}
+           "read_noise": read_noise, "frames": frames, "prnu": prnu, "dcnu": dcnu,
+           # an identity look-up table (code -> code): changes no value, but the frames go through the table stage
+           "lut": bits <= 12 and rng.random() < 0.2}
     tt = t if t > 0 else 1.0
     regime = rng.choice(["dark", "mid", "fwc", "adc", "adc", "beyond", "beyond"])
     img = {"shape": [m, n], "seed": rng.getrandbits(32), "regime": regime, "exact": exact,
@@ -333,7 +341,8 @@ def execute(plan):
             S.prnu = S.prnu * d.get("prnu_scale_acc", 1.0) if d.get("prnu_scale_acc") else S.prnu
         if d["dcnu"]:
             g = np.random.Generator(np.random.PCG64(d["dcnu"]["seed"]))
-            S.dcnu = 1.0 + d["dcnu"]["spread"] * (g.random((m, n)) - 0.5)
+            shp = {"col": (m, 1), "row": (1, n)}.get(d["dcnu"].get("shape"), (m, n))
+            S.dcnu = 1.0 + d["dcnu"]["spread"] * (g.random(shp) - 0.5)
             if d["dcnu"].get("dtype") == "f32":
                 S.dcnu = S.dcnu.astype(np.float32)
             elif d["dcnu"].get("dtype") == "i64":
@@ -365,7 +374,12 @@ def execute(plan):
             return np.array(d[key]) if key in a0 else d[key]
         return D.Detector(dark_current=form("dark"), read_noise=form("read_noise"), bias=form("bias"), fwc=form("fwc"),
                           conversion_gain=form("gain"), bits=bits_arg, exposure_time=form("t"),
-                          prnu=laid_out(S.prnu, d["prnu"]), dcnu=laid_out(S.dcnu, d["dcnu"]))
+                          prnu=laid_out(S.prnu, d["prnu"]), dcnu=laid_out(S.dcnu, d["dcnu"]), lut=lut_for())
+
+    def lut_for():
+        if not d.get("lut") or S.bits > 12:
+            return None
+        return np.arange(2 ** S.bits, dtype=np.uint8 if S.bits <= 8 else np.uint16)
 
     events, violations = [], []
     faults, probes = {}, {}
@@ -421,6 +435,7 @@ def execute(plan):
 
     shared = {"det": None}
     seam_lost = {"v": False}
+    kept_frames = []
 
     def expose(image, coupled):
         sim.begin_exposure(coupled_to_previous=coupled)
@@ -439,6 +454,16 @@ def execute(plan):
         if not (image.shape == held.shape and image.dtype == held.dtype and np.array_equal(image, held)):
             viol("input-mutated", "expose", what="the aerial image passed to expose() was modified in place")
             image[...] = held
+        # frames handed out earlier belong to the caller: a later exposure must not change them
+        for arr, cp in kept_frames:
+            if not np.array_equal(np.asarray(arr), cp):
+                viol("result-mutated", "expose", what="a frame returned by an earlier exposure changed during a later one")
+                break
+        if len(kept_frames) < 4:
+            try:
+                kept_frames.append((out, np.array(out, copy=True)))
+            except Exception:
+                pass
         return out
 
     def check_frame(dn, image, stage):
@@ -541,6 +566,9 @@ def execute(plan):
                     elif key == "dcnu_scale" and det.dcnu is not None:
                         det.dcnu *= op["set"][key]
                         bump(faults, "installed_map_edited_in_place")
+                    elif key == "bits":
+                        setattr(det, "bits", d["bits"])
+                        det.lut = lut_for()
                     elif key in ATTR:
                         setattr(det, ATTR[key], d[key])
                     elif key == "dcnu":
@@ -583,8 +611,12 @@ def execute(plan):
                 dn1 = expose(img, False)
             except Exception as e:
                 ev["out"] = "raised:" + type(e).__name__
-                viol("raised", "expose", exc=type(e).__name__, msg=str(e)[:160],
-                     prnu=S.prnu is not None, dcnu=S.dcnu is not None)
+                if cfg.get("bits_form") == "float" and isinstance(e, (TypeError, ValueError)):
+                    # a bit depth is an integer quantity: 8.0 may be refused cleanly (what is accepted must be right)
+                    bump(probes, "float_bit_depth_refused")
+                else:
+                    viol("raised", "expose", exc=type(e).__name__, msg=str(e)[:160],
+                         prnu=S.prnu is not None, dcnu=S.dcnu is not None)
                 dn1 = None
                 events.append(ev)
                 continue
@@ -1031,6 +1063,12 @@ def _wb(np, B, mos, cfa, viol, bump, probes):
                 if float(fac.max() - fac.min()) > 1e-12 * float(abs(fac).max()):
                     viol("bayer-native-sites", "wb-safe-one-factor-per-site", plane=nm, cfa=cfa)
                     break
+    # gains held by the caller as 0-d arrays, through a call whose limiter engages: they are the caller's
+    g0 = {k: np.array(float(v)) for k, v in gains.items()}
+    b = mf.copy()
+    B.wb_prescale(b, g0["r"], g0["g1"], g0["g2"], g0["b"], cfa, safe=True, saturation=top / 2.0)
+    if any(float(g0[k]) != float(gains[k]) for k in gains):
+        viol("input-mutated", "wb-gains", what="a 0-d array gain passed to wb_prescale was modified in place", cfa=cfa)
     # ... and the calls above must not have left anything behind
     unit("-after-safe")
     gained("-after-safe")
